@@ -194,9 +194,22 @@ class Driver:
         if k == "null":
             return NullStorageBackend()
         mb = (self.budget / 1048576.0) if (self.budget and with_cache) else None
-        kw = dict(path=self.data)
+        data, meta = self.data, self.meta
+        if self.cfg.get("respell") and with_cache:
+            # every backend object reaches the same store directory under another spelling of its path (a symbolic link, a
+            # detour through ..): the same store all the same
+            self.nopen = getattr(self, "nopen", -1) + 1
+            if self.nopen % 3 == 1:
+                alias = self.base.rstrip(os.sep) + "_alias"
+                if not os.path.islink(alias):
+                    os.symlink(self.base, alias)
+                data, meta = data.replace(self.base, alias, 1), meta.replace(self.base, alias, 1)
+            elif self.nopen % 3 == 2:
+                data = os.path.join(self.base, "data", "..", "data")
+                meta = os.path.join(self.base, "meta", "..", "meta") if self.cfg.get("sepmeta") else data
+        kw = dict(path=data)
         if self.cfg.get("sepmeta"):
-            kw["metadata_path"] = self.meta
+            kw["metadata_path"] = meta
         if via_config == "arg_over_config":      # the explicit argument against a configuration that says otherwise
             conf = dict(kw)
             conf["type"] = "filesystem"
@@ -464,6 +477,8 @@ def run_job(job):
         return out
     finally:
         shutil.rmtree(base, ignore_errors=True)
+        if os.path.islink(base.rstrip(os.sep) + "_alias"):
+            os.unlink(base.rstrip(os.sep) + "_alias")
 
 
 def main():
